@@ -53,6 +53,9 @@ class PModule:
     classes: list = field(default_factory=list)
 
 
+ENUM_ALIASES = {}     # local name -> imported name, for `from enum import Enum as X` (filled per module)
+
+
 def literal_default(node):
     """('lit', python value) for int/float/str/bool/None literals incl. signed numbers, else ('other',)"""
     if isinstance(node, ast.Constant) and (node.value is None or isinstance(node.value, (bool, int, float, str))):
@@ -60,6 +63,8 @@ def literal_default(node):
     if isinstance(node, ast.UnaryOp) and isinstance(node.op, (ast.USub, ast.UAdd)) and isinstance(node.operand, ast.Constant) \
             and isinstance(node.operand.value, (int, float)) and not isinstance(node.operand.value, bool):
         return ("lit", -node.operand.value if isinstance(node.op, ast.USub) else +node.operand.value)
+    if isinstance(node, ast.UnaryOp):
+        return ("unparsable",)      # a default the tool flags as unknown value
     return ("other",)
 
 
@@ -93,11 +98,12 @@ def class_of(node: ast.ClassDef, owner_id):
     cid = f"{owner_id}/{node.name}"
     bases = [ast.unparse(b) for b in node.bases]
     c = PClass(cid, node.name, bases, ast.get_docstring(node, clean=True), node=node)
-    c.is_enum = any(b.split(".")[-1] in ("Enum", "IntEnum") for b in bases)
+    c.is_enum = any(ENUM_ALIASES.get(b, b).split(".")[-1] in ("Enum", "IntEnum") for b in bases)
     for st in node.body:
         if isinstance(st, ast.FunctionDef):
             if any(ast.unparse(d).endswith(".setter") or ast.unparse(d).endswith(".deleter") for d in st.decorator_list):
                 continue
+            c.methods = [m for m in c.methods if m.name != st.name]       # overloads: the implementation comes last
             c.methods.append(func_of(st, cid, True))
             if st.name == "__init__":
                 for sub in ast.walk(st):
@@ -130,7 +136,11 @@ def package_modules(root, include_tests=True):
     """All modules of the package directory `root` (ids like the tool's: dotted path below the parent of root,
     with '/' separators)."""
     root = os.path.abspath(root)
-    base = os.path.dirname(root)
+    # module ids are dotted paths below the topmost enclosing package (as mypy names the modules)
+    top = root
+    while os.path.exists(os.path.join(os.path.dirname(top), "__init__.py")):
+        top = os.path.dirname(top)
+    base = os.path.dirname(top)
     out = []
     for dp, dn, fn in sorted(os.walk(root)):
         dn.sort()
@@ -148,9 +158,15 @@ def package_modules(root, include_tests=True):
                 mid = "/".join(parts)
             with open(p, encoding="utf-8") as fh:
                 tree = ast.parse(fh.read())
+            ENUM_ALIASES.clear()
+            for st in tree.body:
+                if isinstance(st, ast.ImportFrom) and st.module == "enum":
+                    for a in st.names:
+                        ENUM_ALIASES[a.asname or a.name] = a.name
             m = PModule(mid, p, ast.get_docstring(tree, clean=False))
             for st in tree.body:
                 if isinstance(st, ast.FunctionDef):
+                    m.functions = [f for f in m.functions if f.name != st.name]
                     m.functions.append(func_of(st, mid, False))
                 elif isinstance(st, ast.ClassDef):
                     m.classes.append(class_of(st, mid))
